@@ -254,6 +254,17 @@ func oddTexts(slot string) []oddText {
 		{"nul", "a\x00b"}, {"yaml-special", ": - # & * ! | > @ ` yes"}, {"yaml-doc", "---\nfoo: bar"}, {"json-special", `{"a":[1,2]}`}, {"long", strings.Repeat("lo-ng", 4000)},
 		{"braces", "{}"}, {"dots", "a.b.c"}, {"dollar-ref", "#/components/schemas/X"}, {"keyword", "type"}, {"digit-start", "9lives"}, {"dash", "-"}, {"underscore", "_"},
 	}
+	if slot == "comment" {
+		// leading comments the way protoc hands them over: every source line keeps its text after `//`
+		// (usually one leading space), paragraphs are separated by empty lines, block comments keep
+		// their stars; the lowering adds the first leading space and the final line break
+		return append([]oddText{
+			{"two-paragraphs", "First paragraph.\n\n Second paragraph."}, {"three-paragraphs", "One.\n\n Two.\n\n\n Three."}, {"leading-blank-line", "\n After a blank line."},
+			{"trailing-blank-lines", "Before blank lines.\n\n"}, {"only-blank-lines", "\n\n"}, {"whitespace-only-line", "First.\n \n Second."}, {"indented-continuation", "List:\n   - one\n   - two\n back"},
+			{"tab-indented", "First.\n\tTabbed.\n\n\tTabbed again."}, {"no-space-after-slashes", "First.\nSecond.\n\nThird."}, {"block-comment-stars", "*\n * First.\n *\n * Second.\n "},
+			{"crlf-paragraphs", "First.\r\n\r\n Second.\r"}, {"markdown", "# Title\n\n ```\n code {x}\n ```\n\n | a | b |\n |---|---|"}, {"deep-indent-then-blank", "        deep\n\n shallow"},
+		}, generic...)
+	}
 	if slot != "path" && slot != "base-path" {
 		return generic
 	}
@@ -327,6 +338,9 @@ func textFile(pkg, slot, text string) *spec.File {
 			spec.F("flag", 5, spec.Bool).With(func(a *spec.Ann) { a.Examples = []string{text} }), spec.F("big", 6, spec.Uint64).With(func(a *spec.Ann) { a.Examples = []string{text, "18446744073709551615"} }))
 	case "comment":
 		req.Comment, req.Fields[0].Comment, resp.Comment, svc.Comment, svc.Methods[0].Comment, svc.Methods[1].Comment = text, text, text, text, text, text
+		f.Enums = []*spec.EnumDef{{Name: "Mood", Comment: text, Values: []spec.EnumValue{{Name: "MOOD_UNSPECIFIED", Num: 0, Comment: text}, {Name: "MOOD_OK", Num: 1, Comment: text}}}}
+		resp.Fields = append(resp.Fields, spec.FE("mood", 2, in("Mood")).Doc(text), spec.FM("nested", 3, in("TReq")).Doc(text))
+		f.Comment = text
 	}
 	svc.Headers = []spec.Header{sh}
 	svc.Methods[0].Headers = []spec.Header{mh}
